@@ -201,6 +201,59 @@ def CopyApi.deep : CopyApi → Bool
 /-- the operation a copy call is; `fresh` = the new grid got its own backing store (observed) -/
 def Op.ofCopy (api : CopyApi) (fresh : Bool) : Op := .copy api.deep fresh
 
+/-! ## the public uxarray calls that return a `UxDataArray`, with every value of their kind-selecting
+    keyword arguments.  This is the table the harness's mechanical enumeration of constructor sites
+    (ast walk over core/, remap/, subset/, cross_sections/) is compared with on every run. -/
+
+inductive Elem where
+  | node | edge | face
+deriving DecidableEq, Repr
+
+def Elem.dim : Elem → Dim
+  | .node => .node | .edge => .edge | .face => .face
+
+/-- the ten `topological_*` aggregations (all built by `_uxda_grid_aggregate`) -/
+inductive Agg where
+  | mean | max | min | prod | sum | std | var | median | all | any
+deriving DecidableEq, Repr
+
+inductive UxCall where
+  /-- `remap.nearest_neighbor(dest, remap_to, coord_type)`; `to`: "nodes" / "edge centers" / "face centers";
+      `coord_type` (spherical / cartesian) selects the tree only -/
+  | remapNN (g : Nat) (to : Elem)
+  /-- `remap.inverse_distance_weighted(dest, remap_to, coord_type, power, k)` -/
+  | remapIDW (g : Nat) (to : Elem)
+  /-- `topological_<agg>(destination)` -/
+  | topo (a : Agg) (dest : Elem)
+  | gradient
+  | difference
+  | integrate
+  /-- `isel(n_node=… | n_edge=… | n_face=…)`; `c`: counts of the grid `Grid.isel` built -/
+  | isel (by_ : Elem) (c : Counts)
+  | subsetNN (element : Elem) (c : Counts)
+  | subsetCircle (element : Elem) (c : Counts)
+  | subsetBox (element : Elem) (c : Counts)
+  /-- `cross_section.constant_latitude(lat)` (= `isel(n_face=faces)`) -/
+  | crossSectionLat (c : Counts)
+  | getDual (closed : Bool) (c : Counts)
+deriving DecidableEq, Repr
+
+/-- the model operation a public call is: the result's element dimension is NAMED after the kind the
+    keyword selects and has the attached grid's count for that kind -/
+def UxCall.op : UxCall → Op
+  | .remapNN g to => .remap g to.dim
+  | .remapIDW g to => .remap g to.dim
+  | .topo _ dest => .topoAgg dest.dim
+  | .gradient => .gradient
+  | .difference => .difference
+  | .integrate => .integrate
+  | .isel _ c => .gridIsel c
+  | .subsetNN _ c => .gridIsel c
+  | .subsetCircle _ c => .gridIsel c
+  | .subsetBox _ c => .gridIsel c
+  | .crossSectionLat c => .gridIsel c
+  | .getDual closed c => .getDual closed c
+
 /-- the class of an xarray operation (none for copies and for uxarray's own operations) -/
 def Op.kind : Op → Option XKind
   | .elem k => some k
